@@ -643,6 +643,60 @@ def _attr_start(src, toks, item):
     return start
 
 
+def _restrict_struct(text, keep, generics, open_, where):
+    """text: `[pub] struct Name<..> [where ..] { fields }`.  Returns `pub struct Name<generics> { pub f: T, .. }` with only
+    the fields named in `keep` (declarations verbatim, made pub), in source order; without the closing brace if open_."""
+    m = re.match(r"\s*(?:pub(?:\([^)]*\))?\s+)?struct\s+(\w+)", text)
+    if not m:
+        raise Unsupported("%s: fields= on a non-struct item" % where)
+    name = m.group(1)
+    b0 = text.find("{")
+    b1 = text.rfind("}")
+    if b0 < 0 or b1 < b0:
+        raise Unsupported("%s: fields= needs a struct with named fields" % where)
+    body = text[b0 + 1:b1]
+    # drop comments
+    body = re.sub(r"//[^\n]*", "", body)
+    body = re.sub(r"/\*.*?\*/", "", body, flags=re.S)
+    fields, depth, cur = [], 0, ""
+    k = 0
+    while k < len(body):
+        ch = body[k]
+        if ch in "([{<":
+            depth += 1
+        elif ch in ")]}":
+            depth -= 1
+        elif ch == ">" and not (k > 0 and body[k - 1] == "-"):
+            depth -= 1
+        if ch == "," and depth == 0:
+            fields.append(cur)
+            cur = ""
+        else:
+            cur += ch
+        k += 1
+    if cur.strip():
+        fields.append(cur)
+    decls = {}
+    order = []
+    for f in fields:
+        f = re.sub(r"#\[[^\]]*\]", "", f).strip()
+        mf = re.match(r"(?:pub(?:\([^)]*\))?\s+)?(\w+)\s*:\s*(.+)$", f, re.S)
+        if not mf:
+            raise Unsupported("%s: cannot parse field %r" % (where, f[:40]))
+        decls[mf.group(1)] = re.sub(r"\s+", " ", mf.group(2).strip())
+        order.append(mf.group(1))
+    for kf in keep:
+        if kf not in decls:
+            raise LostAnchor("%s: field %s not found" % (where, kf))
+    lines = ["pub struct %s%s {" % (name, generics)]
+    for f in order:
+        if f in keep:
+            lines.append("    pub %s: %s," % (f, decls[f]))
+    if not open_:
+        lines.append("}")
+    return "\n".join(lines)
+
+
 def _frag_probe(src, item, d, where):
     """raise LostAnchor/Unsupported if the fragment anchors do not resolve (used for //@optional)."""
     if item.body_open is None:
@@ -698,11 +752,19 @@ def assemble(template_path, repo):
         if kind == "item":
             last = segs[-1].split()
             derive = None
-            while last and (last[-1] in ("strip-attrs",) or last[-1].startswith("derive=")):
+            keep_fields = None
+            generics = ""
+            while last and (last[-1] in ("strip-attrs", "open") or last[-1].startswith(("derive=", "fields=", "generics="))):
                 o = last.pop()
                 if o.startswith("derive="):
                     derive = o[len("derive="):]
                     o = "strip-attrs"
+                elif o.startswith("fields="):
+                    keep_fields = [x for x in o[len("fields="):].split(",") if x]
+                    o = "strip-attrs"
+                elif o.startswith("generics="):
+                    generics = o[len("generics="):]
+                    continue
                 opts.add(o)
             segs[-1] = " ".join(last)
         src = _read(repo, rel)
@@ -718,6 +780,12 @@ def assemble(template_path, repo):
                 text = src[item.start:item.end]
                 if derive:
                     text = "#[derive(%s)]\n" % derive.replace(",", ", ") + text
+            if keep_fields is not None:
+                text = _restrict_struct(src[item.start:item.end], keep_fields, generics, "open" in opts, where)
+                if derive:
+                    text = "#[derive(%s)]\n" % derive.replace(",", ", ") + text
+                ex.dropped.append("fields of %s not in %s (stand-in struct: kept fields verbatim, generics -> %r)"
+                                  % (where, keep_fields, generics))
             ex.items.append({"file": rel, "path": segs, "line": _line_of(src, item.start)})
             emit(text, rel, _line_of(src, item.start))
             i += 1
